@@ -3,7 +3,7 @@
    recovery of a trailing comma, clamp to the variadic parameter), compared with
    PathDecoder.SignatureAtPos at every byte offset of generated files on every run. *)
 From Coq Require Import String List ZArith Bool.
-From HV Require Import Base.Pos Model.Schema Model.Signature Proofs.SignatureProofs.
+From HV Require Import Base.Pos Model.Schema Model.Signature Proofs.SignatureProofs Proofs.SignatureClamp.
 
 (* every returned signature belongs to a call of a known function whose range contains the cursor;
    its parameter list is the function's fixed parameters followed by the variadic one and the
@@ -31,3 +31,21 @@ Theorem C20_innermost_call_decides : forall funcs file p before c after,
   match call_effect funcs file p c with Set_ s => Some s | _ => None end.
 Proof. exact last_effective_call_decides. Qed.
 Print Assumptions C20_innermost_call_decides.
+
+(* the clamp, case by case: within the fixed parameters the active parameter is the argument's own index; beyond them it
+   is the variadic parameter (the last of the list); with more arguments than parameters and no variadic one there is
+   no signature *)
+Theorem C20_active_parameter_is_the_argument_index : forall plen act v,
+  (act < plen)%Z -> clamp_active plen act v = Some act.
+Proof. exact clamp_within. Qed.
+Print Assumptions C20_active_parameter_is_the_argument_index.
+
+Theorem C20_surplus_arguments_go_to_the_variadic_parameter : forall plen act,
+  (plen <= act)%Z -> clamp_active plen act true = Some (plen - 1)%Z.
+Proof. exact clamp_variadic. Qed.
+Print Assumptions C20_surplus_arguments_go_to_the_variadic_parameter.
+
+Theorem C20_surplus_arguments_without_variadic_give_no_signature : forall plen act,
+  (plen <= act)%Z -> clamp_active plen act false = None.
+Proof. exact clamp_surplus. Qed.
+Print Assumptions C20_surplus_arguments_without_variadic_give_no_signature.
